@@ -20,7 +20,9 @@ import (
 
 	"verif/harness/internal/gen/fontgen"
 	"verif/harness/internal/mon"
+	"verif/harness/internal/ref/cffmini"
 	"verif/harness/internal/ref/cmapref"
+	"verif/harness/internal/ref/sfntwalk"
 )
 
 // C10: subsetting keeps every selected glyph intact and consistently re-indexed.
@@ -819,6 +821,28 @@ func runC10(c *mon.Ctx) {
 		if k.Failed() {
 			return
 		}
+		// small subsets of CFF fonts: one string is tuned so that the data of the
+		// String INDEX of the written subset is exactly 254, 255 or 256 bytes
+		// long (the sizes at which the offsets of an INDEX need another byte)
+		if _, isCFF := sub.Outlines.(*cff.Outlines); isCFF && k.Index%5 == 1 {
+			sub.Trademark = ""
+			probe := &bytes.Buffer{}
+			if pv, _ := mon.Try(func() { sub.Write(probe) }); pv == nil {
+				if pw, _ := sfntwalk.Walk(probe.Bytes()); pw != nil && pw.Get("CFF ") != nil {
+					if mf, err := cffmini.Parse(pw.Get("CFF ").Data); err == nil && mf.Strings != nil {
+						have := 0
+						for _, d := range mf.Strings.Data {
+							have += len(d)
+						}
+						target := 254 + k.Index/15%3
+						if pad := target - have; pad >= 2 {
+							sub.Trademark = "TM" + strings.Repeat("x", pad-2)
+							k.Class(fmt.Sprintf("subset:cff-string-index-data=%d", target))
+						}
+					}
+				}
+			}
+		}
 		// (g) the subset can be written and read back
 		var out []byte
 		{
@@ -927,7 +951,7 @@ func runC10(c *mon.Ctx) {
 		}
 		k.Class("cff-outlines-subset:" + info.Kind)
 	})
-	c.Require("cmap:format0-on-windows-platform", "list:all-codes-in-use,pairs-shuffled", "cff:encoding-256-codes", "cff:encoding-255-codes", "cmap-undecoded-subtable:format13", "cmap-undecoded-subtable:format10", "cmap-undecoded-subtable:format14", "cmap-undecoded-subtable:format0-mac-japanese", "callers-list-reused", "list:just-below-256", "list:ligature-chain-components-only", "kind=glyf", "kind=cff", "kind=cid", "cmap-compared", "encoding-compared", "kerning-compared", "gsub-rules-compared",
+	c.Require("subset:cff-string-index-data=255", "cmap:format0-on-windows-platform", "list:all-codes-in-use,pairs-shuffled", "cff:encoding-256-codes", "cff:encoding-255-codes", "cmap-undecoded-subtable:format13", "cmap-undecoded-subtable:format10", "cmap-undecoded-subtable:format14", "cmap-undecoded-subtable:format0-mac-japanese", "callers-list-reused", "list:just-below-256", "list:ligature-chain-components-only", "kind=glyf", "kind=cff", "kind=cid", "cmap-compared", "encoding-compared", "kerning-compared", "gsub-rules-compared",
 		"written-and-read-back", "original-font-unchanged", "extras-appended:glyf", "cff-outlines-subset:cff", "cff-outlines-subset:cid")
 }
 
